@@ -8,6 +8,7 @@ package anytype
 import (
 	"math"
 	"strconv"
+	"strings"
 )
 
 /*
@@ -141,6 +142,48 @@ func native(value any) any {
 }
 
 /*
+Quotes a string as a JSON string literal (RFC 8259).
+Quotation mark, reverse solidus and the control characters U+0000 to U+001F are escaped, everything else is kept as it is.
+Parameters:
+  - str - string to quote.
+
+Returns:
+  - quoted string.
+*/
+func quoteJSON(str string) string {
+	const hex = "0123456789abcdef"
+	var result strings.Builder
+	result.WriteByte('"')
+	for i := 0; i < len(str); i++ {
+		char := str[i]
+		switch {
+		case char == '"':
+			result.WriteString(`\"`)
+		case char == '\\':
+			result.WriteString(`\\`)
+		case char == '\b':
+			result.WriteString(`\b`)
+		case char == '\f':
+			result.WriteString(`\f`)
+		case char == '\n':
+			result.WriteString(`\n`)
+		case char == '\r':
+			result.WriteString(`\r`)
+		case char == '\t':
+			result.WriteString(`\t`)
+		case char < 0x20:
+			result.WriteString(`\u00`)
+			result.WriteByte(hex[char>>4])
+			result.WriteByte(hex[char&0xf])
+		default:
+			result.WriteByte(char)
+		}
+	}
+	result.WriteByte('"')
+	return result.String()
+}
+
+/*
 Structure encapsulating a string value.
 Implements:
   - field.
@@ -190,7 +233,7 @@ Returns:
 */
 func (ego *atString) serialize() string {
 	val := ego.getVal().(string)
-	return strconv.Quote(val)
+	return quoteJSON(val)
 }
 
 /*
